@@ -117,3 +117,22 @@ Theorem C01_canonical_note_is_normal : forall bad n, note_ok n -> canonical_orde
   mem_str (str (print_note n)) bad = false -> normal_cell bad (str (print_note n)).
 Proof. exact canonical_note_is_normal. Qed.
 Print Assumptions C01_canonical_note_is_normal.
+
+(* the cells the fixed-point theorems cover are in normal form: canonical rests, canonical chords, and every cell the
+   recogniser keeps as one simple token carrying its own text (interpretations such as clefs, meters, keys ...) *)
+From KV Require Import RestProofs RestFixedProofs.
+Theorem C01_canonical_rest_is_normal : forall bad r, rest_ok r -> rest_canonical_order r ->
+  mem_str (str (print_rest r)) bad = false -> normal_cell bad (str (print_rest r)).
+Proof. exact canonical_rest_is_normal. Qed.
+Print Assumptions C01_canonical_rest_is_normal.
+
+Theorem C01_canonical_chord_is_normal : forall bad D notes, 2 <= List.length notes -> chord_ok D notes ->
+  Forall canonical_order notes -> mem_str (str (print_chord notes)) bad = false -> normal_cell bad (str (print_chord notes)).
+Proof. exact canonical_chord_is_normal. Qed.
+Print Assumptions C01_canonical_chord_is_normal.
+
+Theorem C01_verbatim_cell_is_normal : forall bad c k cls, plain_cell c -> c <> ""%string -> mem_str c bad = false ->
+  kern_recognise c = KTok (TSimple c k cls) -> strip_separators c = c -> mem_str c nullish_tokens = false ->
+  normal_cell bad c.
+Proof. exact verbatim_cell_is_normal. Qed.
+Print Assumptions C01_verbatim_cell_is_normal.
